@@ -165,3 +165,45 @@ def classify(lib, m):
   if np.any(np.array(m.dof_simplenum) > 0):
     out.append('m:simple-dofs')
   return sorted(set(out))
+
+
+_NOISE = ('geom:', 'jnt:', 'inertial', 'nbody>=3', 'trn:', 'armature', 'multijoint', 'depth>=2', 'damping:', 'spring:',
+          'gravcomp', 'tendon:', 'act:motor', 'act:position', 'act:velocity', 'act:general', 'act:damper')
+
+
+def brief(labels, keep=()):
+  """Drop generator labels that duplicate the measured 'm:' labels or carry little information, so that the 60-label
+  evidence histogram shows what matters for the check. `keep` = prefixes to keep anyway."""
+  out = []
+  for l in labels:
+    if any(l.startswith(k) for k in keep) or not any(l.startswith(n) for n in _NOISE) or l in ('act:general_dyn', 'act:intvelocity'):
+      out.append(l)
+  return out
+
+
+def opt_info(lib, m):
+  """Integrator name and disabled-flag dict read back from the compiled model (so that a replay needs only xml + seed)."""
+  e = lib.enums
+  integ = {e.mjINT_EULER: 'Euler', e.mjINT_RK4: 'RK4', e.mjINT_IMPLICIT: 'implicit', e.mjINT_IMPLICITFAST: 'implicitfast'}[int(m.opt.integrator)]
+  bits = int(m.opt.disableflags)
+  names = dict(spring=e.mjDSBL_SPRING, damper=e.mjDSBL_DAMPER, gravity=e.mjDSBL_GRAVITY, actuation=e.mjDSBL_ACTUATION,
+               eulerdamp=e.mjDSBL_EULERDAMP, warmstart=e.mjDSBL_WARMSTART, contact=e.mjDSBL_CONTACT)
+  return integ, {k: 'disable' for k, v in names.items() if bits & v}
+
+
+def make_replay(main_fn):
+  """replay(ck, body) for checks whose cases are (GenModel, state seed): re-runs the check's test on that single case."""
+  def replay(ck, body):
+    from . import mj
+    from .runner import Violation
+    c = body['case']['case']
+    gm = mg.GenModel(c[0]['xml'], dict(labels=list(c[0].get('labels', []))))
+
+    def run_one(test, strategy, n, name='main', **kw):
+      try:
+        test((gm, int(c[1])))
+      except (Violation, AssertionError, mj.MjError) as e:
+        ck.violation('%s: %s' % (type(e).__name__, e), dict(check=name, case=c), bucket=getattr(e, 'bucket', None) or name)
+    ck.run_hypothesis = run_one
+    main_fn(ck)
+  return replay
